@@ -204,7 +204,7 @@ pub fn run(tier: Tier) -> ! {
     let mut run = Run::new("C16", "exploration", tier);
     run.rule("proofs over small LDE domains (2^5..2^9 points) with 20..84 query rounds, arity schedules ConstantArityBits(1..4, 0..4), MinSize(None|1..3), Fixed lists incl. mixed arities over 3-4 layers ([2,1,1],[3,2,1],[1,3,1,1],random), cap heights 0..3, with/without lookups and blinding, Poseidon and Keccak, so that queries repeat indices and share cosets at every layer (collisions are counted per layer). Oracles: decompress(compress(p)) == p, compress stable, verify_compressed(compress(p)) == verify(p) for honest proofs and for proofs tampered before compression (elements and lists); tampered compressed forms get the verdict of their decompression. distinct = distinct (config, degree, arity schedule).");
     let quick = run.quick();
-    let n: u64 = run.pick(48, 2000);
+    let n: u64 = run.pick(48, 1200);
     let seed = run.seed;
     let only = run.only_case;
     // Cases run in 16 single-threaded worker processes: with one in-process pool, work stealing
